@@ -15,6 +15,14 @@
                   COMPONENTS OF, replace value references), composed at random;
                   for all 8 codecs, every named type: bytes of generated values
                   and decoded values compared across arrangements on /repo
+  twin components harness/c19_twins.py (round 5): the same identifier referring to the
+                  same named type from several SEQUENCE / SET / CHOICE types or depths,
+                  every site with its own combination of constraint / OPTIONAL /
+                  DEFAULT / tag, 3 tagging environments, 8 codecs; reference vs
+                  inline form at every site separately, order, modules; values
+                  directed at the attributes of the other sites; the attributes
+                  of the compiled components of all codecs against
+                  [attrs (flatten ..)] of Compile/MemberAttrs.v
   witnesses       the refutation witnesses of Props/C19.v and the other repaired
                   defects are replayed on /repo (a difference is a violation);
                   known_findings/C19.json witnesses are re-run and reported as
@@ -29,6 +37,7 @@ from common import to_coq
 import lib
 import c13c19_gen as G
 import c13c19_flat as F
+import c19_twins
 
 import asn1tools
 
@@ -493,7 +502,9 @@ def replay(ctx):
     doc = json.load(open(ctx.replay))
     r = doc['replay']
     print('replaying', r.get('kind'), r.get('id', ''))
-    if r.get('kind') in ('pair', 'arrangements') and 'type' in r:
+    if r.get('kind') == 'twin':
+        c19_twins.replay_one(r)
+    elif r.get('kind') in ('pair', 'arrangements') and 'type' in r:
         codecs = r.get('codecs') or [r['codec']]
         print('result:', compare_pair(r['arrangement1'], r['arrangement2'], codecs, r['type'], eval(r['value'])))
     elif r.get('kind') == 'arrangements':
@@ -515,6 +526,8 @@ def run(ctx):
         'harness/c13c19_gen.py: the reorganisations are meaning preserving (checked on the modelled subset by '
         'evaluating flatten on both arrangements)',
         'harness/c13c19_flat.py: exporter of abstract specifications and dump of compiled PER types',
+        'harness/c19_twins.py: generator of twin components, inliner at a single site, reader of the OPTIONAL / DEFAULT '
+        'attributes of the compiled objects of the 8 codecs',
         'X.693: XER names the items of SEQUENCE OF after the type reference; XER bytes are not compared when an '
         'element-position reference is inlined or extracted (decoded values are)',
     ]
@@ -534,6 +547,8 @@ def run(ctx):
     dup_name_cases(ctx, 6 if ctx.quick else 80)
     choice_chain_cases(ctx, 10 if ctx.quick else 150)
     tree_cases(ctx, 8 if ctx.quick else 100, 4, 3)
+    ok = c19_twins.run_cases(ctx, 30 if ctx.quick else 600) and ok
+    ctx.log('twin components done')
     pt_arrangements(ctx, 40 if ctx.quick else 350, 3, 3 if ctx.quick else 4)
     ctx.log('property test done')
     total = 12 if ctx.quick else 150
